@@ -45,7 +45,12 @@ class Translator:
         use_assumptions: bool = True,
         indexed_complex: bool = True,
         unfold=True,
+        branch_by_solver: bool = False,
+        name_classes=(),
     ):
+        self.branch_by_solver = branch_by_solver
+        self.name_classes = set(name_classes)
+        self.named: dict = {}
         self.ctx = ctx
         self.symbol_values = dict(symbol_values or {})
         self.complex_symbols = complex_symbols
@@ -87,14 +92,9 @@ class Translator:
         ctx = self.ctx
         name = str(s)
         self.symbols_seen[name] = s
-        if isinstance(s, sp.Indexed):
-            if self.indexed_complex:
-                v = ctx.cvar(name)
-            else:
-                v = ctx.var(name)
-            self.symbol_values[s] = v
-            return v
-        if self._is_complex_symbol(s):
+        if isinstance(s, sp.Indexed) and self.indexed_complex and not s.is_extended_real:
+            v = ctx.cvar(name)
+        elif self._is_complex_symbol(s):
             v = ctx.cvar(name)
         else:
             new = name not in ctx.vars
@@ -232,11 +232,15 @@ class Translator:
             q = _frac(expo)
             if q.denominator == 1:
                 return self.tr(base) ** q
-            if q.denominator == 2:
+            if q.denominator in (2, 4, 8):
                 b = self.tr(base)
-                if not b.is_real():
-                    raise Unsupported(f"sqrt of a complex value: {base}")
-                return b.sqrt() ** q.numerator
+                d = q.denominator
+                while d > 1:
+                    if not b.is_real():
+                        raise Unsupported(f"sqrt of a complex value: {base}")
+                    b = b.sqrt()
+                    d //= 2
+                return b ** q.numerator
             raise Unsupported(f"power {q}")
         if isinstance(e, sp.exp):
             return self._exp(e.args[0])
@@ -247,7 +251,15 @@ class Translator:
             u = self._unit_exp(e.args[0])
             return (u - u.conjugate()) * ctx.const(Fraction(1, 2)) * (-1) * ctx.I()
         if isinstance(e, sp.Abs):
-            return self.tr(e.args[0]).abs()
+            inner = self.tr(e.args[0])
+            if self.branch_by_solver and inner.is_real() and inner.as_fraction() is None:
+                from .core import implied
+
+                if implied(ctx, inner.ge(0)):
+                    return inner
+                if implied(ctx, inner.le(0)):
+                    return -inner
+            return inner.abs()
         if isinstance(e, sp.conjugate):
             return self.tr(e.args[0]).conjugate()
         if isinstance(e, sp.re):
@@ -260,17 +272,35 @@ class Translator:
             if last_cond is not sp.true:
                 # value undefined outside; treat as nan -> Unsupported unless conditions cover
                 raise Unsupported("Piecewise without a default branch")
+            if self.branch_by_solver:
+                from .core import implied
+
+                remaining = []
+                for ex, c in pieces:
+                    zc = self.cond(c)
+                    if implied(ctx, zc):
+                        remaining.append((ex, None))
+                        break
+                    if implied(ctx, z3.Not(zc)):
+                        continue
+                    remaining.append((ex, zc))
+                out = self.tr(remaining[-1][0])
+                for ex, zc in reversed(remaining[:-1]):
+                    out = ite(zc, self.tr(ex), out)
+                return out
             out = self.tr(last_expr)
             for ex, c in reversed(pieces[:-1]):
                 out = ite(self.cond(c), self.tr(ex), out)
             return out
         if isinstance(e, sp.Sum):
-            return self.tr(e.doit())
+            return self._unroll_sum(e)
         if isinstance(e, (WignerD, Rotation, CG)):
             return self.tr(e.doit())
         if isinstance(e, AppliedUndef) or (isinstance(e, sp.Function) and type(e).__name__ in self.uf_functions):
             return self._uf(e)
         clsname = type(e).__name__
+        if clsname in self.name_classes:
+            return self._named_node(e)
         if clsname == "ComplexSqrt":
             b = self.tr(e.args[0])
             if not b.is_real():
@@ -278,6 +308,13 @@ class Translator:
             q = b.as_fraction()
             if q is not None:
                 return ctx.sqrt_rational(q)
+            if self.branch_by_solver:
+                from .core import implied
+
+                if implied(ctx, b.ge(0)):
+                    return b.sqrt()
+                if implied(ctx, b.le(0)):
+                    return (-b).sqrt() * ctx.I()
             return b.sqrt(complex_branch=True)
         if self.unfold and hasattr(e, "evaluate") and callable(e.evaluate):
             return self.tr(e.evaluate())
@@ -286,6 +323,45 @@ class Translator:
             if d != e:
                 return self.tr(d)
         raise Unsupported(f"node type {clsname}: {str(e)[:80]}")
+
+    def _unroll_sum(self, e) -> V:
+        """Unroll a Sum with concrete integer limits without unfolding the summand."""
+        import itertools as _it
+
+        summand, *limits = e.args
+        ranges = []
+        for lim in limits:
+            idx, lo, hi = lim
+            if not (lo.is_Integer and hi.is_Integer):
+                raise Unsupported(f"symbolic summation limits {lim}")
+            ranges.append([(idx, sp.Integer(k)) for k in range(int(lo), int(hi) + 1)])
+        out = self.ctx.const(0)
+        for combo in _it.product(*ranges):
+            out = out + self.tr(summand.xreplace(dict(combo)))
+        return out
+
+    def _named_node(self, e) -> V:
+        """Give the (real) value of an unevaluated node its own solver variable v with
+        v*den == num, and record sign lemmas that the solver proves from the domain."""
+        from .core import implied, is_const
+
+        ctx = self.ctx
+        val = self.tr(e.evaluate() if hasattr(e, "evaluate") else e.doit(deep=False))
+        if val.as_fraction() is not None:
+            return val
+        num, den = val.single_real()
+        v = ctx.fresh(type(e).__name__)
+        ctx.var_meta[str(v)]["derived"] = True
+        ctx.assume(v * to_z3(val._den_term(den)) == to_z3(num))
+        self.named[str(v)] = str(e)
+        if implied(ctx, v > 0):
+            ctx.assume(v > 0)
+            ctx.mark_positive(v)
+        elif implied(ctx, v >= 0):
+            ctx.assume(v >= 0)
+        elif implied(ctx, v < 0):
+            ctx.assume(v < 0)
+        return V(ctx, {B1: (v, ZERO)})
 
     def _exp(self, arg) -> V:
         arg = sp.expand(arg)
